@@ -328,18 +328,11 @@ impl App {
             }
             _ => {
                 let mut adf = if self.import {
-                    #[cfg(not(feature = "adhoccounting"))]
-                    {
-                        serde_json::from_str(&input).expect("Old feature should work")
-                    }
-                    #[cfg(feature = "adhoccounting")]
-                    {
-                        let mut result: Adf =
-                            serde_json::from_str(&input).expect("Old feature should work");
-                        log::debug!("test");
-                        result.fix_import();
-                        result
-                    }
+                    let mut result: Adf =
+                        serde_json::from_str(&input).expect("Old feature should work");
+                    // the repair step rebuilds whatever the selected features keep per node (variable lists, counts)
+                    result.fix_import();
+                    result
                 } else {
                     let parser = AdfParser::default();
                     match parser.parse()(&input) {
